@@ -475,6 +475,8 @@ struct Stats {
     refused_empty: u64,
     ambiguous: u64,
     max_answer: u64,
+    classes: HashMap<&'static str, u64>,
+    crossing: [u64; 5],
 }
 
 fn chunk_holds(c: &Chunk, vs: u64, ve: u64) -> bool {
@@ -611,6 +613,14 @@ where
         }
         st.regions += 1;
         st.ambiguous += optional.len() as u64;
+        *st.classes.entry(reg.class).or_insert(0) += 1;
+        if let (Some(a), Some(z)) = (reg.s, reg.e) {
+            for (j, span) in layouts::LEVEL_SPANS.iter().enumerate() {
+                if (a - 1) / span != (z - 1) / span {
+                    st.crossing[j] += 1;
+                }
+            }
+        }
         let iv = reg.interval();
         let what = format!("{}+{} ({}, geometry {:?}) region {name}:{iv} [{}]", B::FMT, lab.ix, lab.via, lab.geometry, reg.class);
         let got = match guard::catch(|| b.query(ix, name, iv)) {
@@ -850,6 +860,12 @@ fn finish_stats(o: &mut CaseOut, fmt: &str, st: &Stats) {
     o.count(&format!("answers_with_min_offset_above_zero[{fmt}]"), st.pruning);
     o.count("vcf45_svlen_boundary_pairs_not_judged", st.ambiguous);
     o.max("max_answer_records", st.max_answer);
+    for (k, n) in &st.classes {
+        o.count(&format!("regions_of_class[{k}]"), *n);
+    }
+    for (j, n) in st.crossing.iter().enumerate() {
+        o.count(&format!("regions_crossing_bin_edge[{}]", ["16kb", "128kb", "1Mb", "8Mb", "64Mb"][j]), *n);
+    }
 }
 
 fn count_level_crossings(o: &mut CaseOut, items: &[Item]) {
